@@ -1,4 +1,5 @@
 import XModel.ManagerFrame
+import XModel.ManagerC17
 /-!
 # C17 — a frozen manager's expression graph cannot change, yet values still propagate
 
@@ -49,6 +50,25 @@ theorem C17_unfreeze (s : MState) (h : s.frozen = false) :
     { ({ s with frozen := true } : MState) with frozen := false } = s := by
   cases s; simp_all
 
+/-- **after `unfreeze_tree()` the manager behaves as if it had never been frozen**: freeze, make any history of API
+    calls, unfreeze — the result is, as a whole state (containers, task table, the four indices with their insertion
+    orders, knob memories), the never-frozen manager after the calls of that history that were not rejected; so no
+    later call can tell the two apart. -/
+theorem C17_as_if_never_frozen (sched : Sched) (cs : List Call) (s : MState) (h : s.frozen = false) :
+    setF false (applyAll sched (setF true s) cs) = applyAll sched s (effective sched (setF true s) cs) ∧
+    (effective sched (setF true s) cs).Sublist cs :=
+  ⟨unfreeze_as_never_frozen sched cs s h, effective_sublist sched cs _⟩
+
+/-- one call on a frozen manager: rejected (`ValueError`, whole state untouched) exactly when it would add, replace
+    or remove a definition (`rejectedB`), otherwise the very call of the never-frozen manager (same outcome, same new
+    state up to the flag) — in particular plain-value assignments still update all dependants -/
+theorem C17_frozen_call (sched : Sched) (s : MState) (h : s.frozen = false) (c : Call) :
+    (rejectedB (setF true s) c = true ∧ apply sched (setF true s) c = (setF true s, some .valueError)) ∨
+    (rejectedB (setF true s) c = false ∧
+     apply sched (setF true s) c = (setF true (apply sched s c).1, (apply sched s c).2) ∧
+     (apply sched s c).1.frozen = false) :=
+  frozen_sim sched s h c
+
 /-! non-vacuity: a frozen manager with a definition, and the calls above on it -/
 def exState : MState :=
   let s0 : MState := { MState.init with store := .dict [(.str "d", .dict [(.str "a", .int 1), (.str "b", .int 0)])] }
@@ -62,5 +82,13 @@ example : (setValue id exState [.item (.str "d"), .item (.str "a")] (.int 5)).2 
     holdsInt (get (setValue id exState [.item (.str "d"), .item (.str "a")] (.int 5)).1.store
       [.item (.str "d"), .item (.str "b")]) 6 = true := by decide
 example : (setValue id exState [.item (.str "d"), .item (.str "b")] (.int 5)).2 = some .valueError := by decide
+
+/-! a frozen period with rejected and accepted calls, then an assignment after unfreezing -/
+def pa : Path := [.item (.str "d"), .item (.str "a")]
+def pb : Path := [.item (.str "d"), .item (.str "b")]
+def unfrozen : MState := { exState with frozen := false }
+def during : List Call := [.setValue pa (.int 5), .setExpr pb (.lit (.int 0)), .unregister pb, .cleanup, .setValue pa (.int 7), .refresh]
+example : effective id (setF true unfrozen) during = [.setValue pa (.int 5), .cleanup, .setValue pa (.int 7)] := rfl
+example : holdsInt (get (applyAll id (setF true unfrozen) during).store pb) 8 = true := by decide
 
 end Properties.C17
